@@ -41,7 +41,7 @@ var props = map[string]*propCfg{
 		Rule: "each run = uploads/overwrites/deletes/reads through the volume over adversarial key orders (ascending, descending, far apart across 32-bit sections, random with repeats; occasionally hundreds of keys) with clean restarts; lookups compared with a reference map, FileCount/DeletedCount/ContentSize/DeletedSize/MaxFileKey compared before and after each reload; memory and LevelDB maps; built twice (default and 5BytesOffset); non-trivial = at least one restart; distinct = distinct abstract traces",
 		Real: volReal, Stub: []string{}, Assume: []string{"offsets beyond 32 bits are not produced (would need > 32 GiB sparse files)"}},
 	"C38": {Engine: "volsim", Variants: []string{""}, Quick: 2400, Thorough: 160000, Chunk: 100, QuickWall: 100, ThorWall: 1500,
-		Rule: "each run = 2-4 client goroutines over 1-3 keys issuing uploads (immediate and batched fsync path), deletes and reads, one released at a time by the plan; the volume's async write worker is parked by the scheduler after it received the first request of a batch while 0-3 more requests are enqueued (H2 yield), so batch composition is a plan choice; every fourth run injects a failing data-file sync on a batch (rollback path); unique values; invoke/return stamped with the global event sequence; final reads of every key join the history; porcupine against a per-key register (a failed upload/delete may or may not have applied, a read error carries no information); non-trivial = at least two operations in flight at once; distinct = distinct abstract traces",
+		Rule: "each run = 2-4 client goroutines over 1-3 keys issuing uploads (immediate and batched fsync path), deletes and reads, one released at a time by the plan; the volume's async write worker is parked by the scheduler after it received the first request of a batch while 0-3 more requests are enqueued (H2 yield), so batch composition is a plan choice; every fourth run injects a failing data-file sync on a batch (rollback path); uploads presenting another cookie (refused when the key holds a blob: a request that fails inside a batch); SLOW-DISK steps: the data file's stat parks its caller inside the volume's critical section (the client of an immediate operation, or the batch worker) while a second operation is issued, then both are released and what they left is read back at once; the bytes returned by a read are held and re-checked after the next read; deletes report whether they removed something; unique values; invoke/return stamped with the global event sequence; final reads of every key join the history; porcupine against a per-key register, each key on its own: the part of its history before its first write in a failed batch strictly (a read error there is a violation), the whole history with the recorded finding's key (a failed upload/delete may or may not have applied); non-trivial = at least two operations in flight at once; distinct = distinct abstract traces",
 		Real: volReal, Stub: []string{"sync failure injected through the Volume.DataBackend seam"},
 		Assume: []string{"concurrency is explored at the granularity of whole operations plus the composition of async batches; data races at memory-model level are not decided (no race detector: that is runtime monitoring, not this technique)", "porcupine time-outs (Unknown) are counted as inconclusive, never reported"}},
 	"C09": {Engine: "volsim", Variants: []string{""}, Quick: 1500, Thorough: 100000, Chunk: 100, QuickWall: 100, ThorWall: 1500,
